@@ -201,9 +201,11 @@ impl<'a, F: IVP> SolOut for DefaultSolOut<'a, F> {
                         let mut fa = g_prev;
                         let mut fb = g_curr;
 
-                        let (event_t, event_y) = if fa.abs() <= XTOL {
+                        // An exact zero at an end of the step is the event (as in brentq). The values of the event
+                        // function must not be compared with XTOL, which is a tolerance on the time.
+                        let (event_t, event_y) = if fa == 0.0 {
                             (a, self.yold.clone())
-                        } else if fb.abs() <= XTOL {
+                        } else if fb == 0.0 {
                             (b, y.to_vec())
                         } else {
                             // Brent's method
